@@ -51,3 +51,40 @@ func TestC32FewerSignaturesThanCPlusOne(t *testing.T) {
 		fmt.Println("VERIF-REPLAY: OK rejected:", err)
 	}
 }
+
+// Native demonstration of the defect repaired by the "fix: reject duplicate bookkeepers in verifyHeader"
+// commit: with 8 consensus peers the code verifies m = 8 - 48/7 = 2 signatures, and a header listing
+// [A, A, B] with A's single signature supplied twice used to be accepted (one valid signer, 2 intended).
+func TestC32DuplicateBookkeeperCountsTwice(t *testing.T) {
+	config.DefConfig.Genesis.ConsensusType = "vbft"
+	var accts []*account.Account
+	info := map[string]uint32{}
+	for i := 0; i < 8; i++ {
+		a := account.NewAccount("")
+		accts = append(accts, a)
+		info[vconfig.PubkeyID(a.PublicKey)] = uint32(i + 1)
+	}
+	cfgPayload, _ := json.Marshal(&vconfig.VbftBlockInfo{NewChainConfig: &vconfig.ChainConfig{C: 1, N: 8}})
+	plain, _ := json.Marshal(&vconfig.VbftBlockInfo{LastConfigBlockNum: 0})
+	cfgHdr := &types.Header{Height: 0, ConsensusPayload: cfgPayload}
+	prev := &types.Header{Height: 4, Timestamp: 100, ConsensusPayload: plain}
+	ls := &LedgerStoreImp{
+		headerCache:      map[common.Uint256]*types.Header{cfgHdr.Hash(): cfgHdr, prev.Hash(): prev},
+		headerIndexCache: NewHeaderIndexCache(),
+		vbftPeerInfoMap:  map[uint32]map[string]uint32{0: info},
+	}
+	ls.headerIndexCache.setHeaderIndex(0, 0, cfgHdr.Hash())
+	hdr := &types.Header{Height: 5, Timestamp: 101, PrevBlockHash: prev.Hash(), ConsensusPayload: plain,
+		Bookkeepers: []keypair.PublicKey{accts[0].PublicKey, accts[0].PublicKey, accts[1].PublicKey}}
+	hash := hdr.Hash()
+	sig, err := signature.Sign(accts[0], hash[:])
+	if err != nil {
+		t.Fatal(err)
+	}
+	hdr.SigData = [][]byte{sig, sig}
+	if err := ls.verifyHeader(hdr); err == nil {
+		fmt.Println("VERIF-REPLAY: ASSERT-FAILED accepted-header-has-c-plus-one-distinct-valid-signers (one signer counted for both of the m = 2 verified signatures)")
+	} else {
+		fmt.Println("VERIF-REPLAY: OK rejected:", err)
+	}
+}
